@@ -21,8 +21,13 @@ func c31Resets(r *core.Run, funcs []*ssa.Function) {
 	const pkg = "pkg/settlement/traffic"
 	totals := map[string]bool{"retrieveTraffic": true, "retrieveChequeTraffic": true, "transferTraffic": true, "transferChequeTraffic": true}
 	n := 0
+	done := map[*ssa.Function]bool{}
 	for _, top := range funcs {
 		for _, f := range core.WithClosures(top) {
+			if done[f] {
+				continue
+			}
+			done[f] = true
 			core.EachInstr(f, func(_ *ssa.BasicBlock, _ int, in ssa.Instruction) {
 				st, ok := in.(*ssa.Store)
 				if !ok {
